@@ -31,7 +31,7 @@ class State:
         if hasattr(s, 'errno_obj'): n.errno_obj = s.errno_obj
         n.objs = {k: v for k, v in s.objs.items()}   # copy-on-write at object level
         n.cow = set(n.objs.keys())
-        n.pc = list(s.pc); n.nextobj = s.nextobj; n.inputs = list(s.inputs); n.steps = s.steps; n.exc = s.exc
+        n.relaxed = getattr(s, 'relaxed', False); n.pc = list(s.pc); n.nextobj = s.nextobj; n.inputs = list(s.inputs); n.steps = s.steps; n.exc = s.exc
         for f in s.frames:
             g = Frame(f.fn); g.lab = f.lab; g.idx = f.idx; g.prev = f.prev; g.loc = dict(f.loc); g.ret_to = f.ret_to; g.allocas = list(f.allocas); g.loopcnt = dict(f.loopcnt)
             n.frames.append(g)
@@ -195,10 +195,11 @@ class Exec:
             s.kill(o, p.off, size)
             o.cells[p.off] = (size, v)
         else:
-            # symbolic offset: conditional update of all same-size aligned cells
-            for off in range(0, o.size - size + 1, size):
+            # symbolic offset: conditional update of the cells at the feasible offsets
+            for off in s.feasible_values(st, p.off, 256):
                 old = s.load_cell(st, o, off, size, t)
-                cond = p.off == off
+                cond = p.off == z3.BitVecVal(off, 64)
+                s.kill(o, off, size)
                 o.cells[off] = (size, s.ite(cond, v, old, t))
 
     def kill(s, o, off, size):
@@ -293,12 +294,12 @@ class Exec:
         size = s.sizeof(t)
         o = s.check_access(st, p, size, 'load')
         if isc(p.off): return s.load_cell(st, o, p.off, size, t)
-        # symbolic offset: ite-chain over aligned cells
+        # symbolic offset: ite-chain over the offsets that are feasible under the path condition
         res = None
-        for off in range(o.size - size, -1, -size):
+        for off in s.feasible_values(st, p.off, 256):
             cv = s.load_cell(st, o, off, size, t)
-            res = cv if res is None else s.ite(p.off == off, cv, res, t)
-        return res
+            res = cv if res is None else s.ite(p.off == z3.BitVecVal(off, 64), cv, res, t)
+        return z3.simplify(res) if z3.is_expr(res) else res
 
     def ite(s, c, a, b, t=None):
         if isinstance(c, bool): return a if c else b
@@ -362,26 +363,27 @@ class Exec:
         memo = s.__dict__.setdefault('_vmemo', {})
         k = e.get_id()
         if k in memo: return memo[k]
-        vs = set(); uf = False; seen = set(); stack = [e]
+        vs = set(); uf = False; seen = set(); stack = [e]; real = False
         while stack:
             x = stack.pop(); i = x.get_id()
             if i in seen: continue
             seen.add(i)
-            if i in memo: vs |= memo[i][0]; uf = uf or memo[i][1]; continue
+            if i in memo: vs |= memo[i][0]; uf = uf or memo[i][1]; real = real or memo[i][2]; continue
+            if z3.is_real(x): real = True
             if z3.is_app(x):
                 if x.num_args() == 0:
                     if x.decl().kind() == z3.Z3_OP_UNINTERPRETED: vs.add(x.decl().name())
                 else:
                     if x.decl().kind() == z3.Z3_OP_UNINTERPRETED: uf = True
                     stack.extend(x.children())
-        memo[k] = (vs, uf)
+        memo[k] = (vs, uf, real)
         return memo[k]
 
     def feasible_relaxed(s, st, cond):
         """real mode: branch feasibility on the cone of influence of cond within the path condition, leaving out conjuncts that mention
         uninterpreted libm functions.  Fewer constraints => 'unsat' still proves the branch infeasible; 'sat'/'unknown' => explore it."""
-        cv, _ = s.vars_of(cond)
-        items = [(c,) + s.vars_of(c) for c in st.pc]
+        cv = s.vars_of(cond)[0]
+        items = [(c,) + s.vars_of(c)[:2] for c in st.pc]
         cone = set(cv); chosen = []; changed = True; rest = [it for it in items if not it[2]]
         while changed:
             changed = False
@@ -408,11 +410,24 @@ class Exec:
         if r == z3.unknown: s.stats['undecided_feasibility'] = s.stats.get('undecided_feasibility', 0) + 1
         return UNDECIDED
 
+    def feasible_values(s, st, term, limit):
+        """all values the bit-vector term can take under the path condition (at most `limit`, else unsupported)"""
+        vals = []; block = []
+        while True:
+            m = s.sat(st, z3.And(*block) if block else None)
+            if m is None: break
+            v = m.eval(term, model_completion=True).as_long()
+            if v >= (1 << 63): v -= 1 << 64
+            vals.append(v); block.append(term != z3.BitVecVal(v, term.size()))
+            if len(vals) > limit: raise Violation('unsupported', 'symbolic pointer with more than %d feasible offsets' % limit, st)
+        if not vals: raise PathEnd('infeasible')
+        return vals
+
     def assert_relaxed_unsat(s, st, negated):
         """try to refute the negated assertion from the cone of influence of its variables only (a proof from fewer hypotheses is a proof);
         anything but unsat falls back to the full path condition"""
-        cv, _ = s.vars_of(negated)
-        items = [(c,) + s.vars_of(c) for c in st.pc]
+        cv = s.vars_of(negated)[0]
+        items = [(c,) + s.vars_of(c)[:2] for c in st.pc]
         cone = set(cv); chosen = []; changed = True; rest = list(items)
         while changed:
             changed = False
@@ -434,7 +449,8 @@ class Exec:
         return r == z3.unsat
 
     def sat(s, st, extra=None, soft=False):
-        if soft and s.fpmode == 'real' and extra is not None and not isinstance(extra, bool):
+        if soft and s.fpmode == 'real' and extra is not None and not isinstance(extra, bool) and (s.vars_of(extra)[2] or getattr(st, 'relaxed', False)):
+            st.relaxed = True      # once a real-valued branch was taken on relaxed feasibility the path stays in relaxed mode
             if st.model is not None and st.model is not UNDECIDED:
                 try:
                     if z3.is_true(st.model.eval(extra, model_completion=True)): s.stats['cache_hits'] += 1; return st.model
@@ -708,7 +724,19 @@ class Exec:
             oid = s.new_obj(st, s.sizeof(x['aty']) * n, 'alloca %s in %s' % (d, fr.fn), kind='stack'); fr.allocas.append(oid)
             L[d] = Ptr(oid, 0)
         elif op == 'load':
-            L[d] = s.load_val(st, s.val(st, x['a']), x['ty'])
+            ptr = s.val(st, x['a'])
+            if isinstance(ptr, Ptr) and not isc(ptr.off) and s.res(x['ty']).k in ('ptr', 'struct', 'array'):
+                # pointer-typed load through a symbolic offset (e.g. an element chosen by a symbolic comparison): enumerate the feasible
+                # offsets and fork one path per offset, so that each path loads a concrete pointer
+                vals = s.feasible_values(st, ptr.off, 64)
+                for v in vals[:-1]:
+                    c = ptr.off == z3.BitVecVal(v, 64)
+                    o = st.fork(); o.pc.append(c); fo = o.frames[-1]
+                    fo.loc[d] = s.load_val(o, Ptr(ptr.obj, v), x['ty']); work.append(o); s.stats['forks'] += 1
+                v = vals[-1]; s.assume(st, ptr.off == z3.BitVecVal(v, 64))
+                L[d] = s.load_val(st, Ptr(ptr.obj, v), x['ty'])
+            else:
+                L[d] = s.load_val(st, ptr, x['ty'])
         elif op == 'store':
             s.store_val(st, s.val(st, x['a']), x['v'].ty, s.val(st, x['v']))
         elif op == 'getelementptr':
@@ -1155,6 +1183,14 @@ class Exec:
             if not hasattr(st, 'errno_obj') or st.errno_obj not in st.objs:
                 st.errno_obj = s.new_obj(st, 4, 'errno', kind='zero')
             return Ptr(st.errno_obj, 0)
+        if name == 'difftime':
+            s.stats['stubs'].add('difftime(a,b) = (double)a - (double)b')
+            def tod(v):
+                if isc(v):
+                    if v >> 63: v -= 1 << 64
+                    return z3.RealVal(v) if s.fpmode == 'real' else z3.FPVal(float(v), z3.Float64())
+                return z3.ToReal(z3.BV2Int(v, is_signed=True)) if s.fpmode == 'real' else z3.fpSignedToFP(z3.RNE(), v, z3.Float64())
+            return tod(a[0]) - tod(a[1]) if s.fpmode == 'real' else z3.fpSub(z3.RNE(), tod(a[0]), tod(a[1]))
         if name == 'strcmp':
             i = 0
             while True:
